@@ -146,8 +146,15 @@ class CachedProxy(Cached[T_Stored]):
 		for oldest in self.find_oldest(cache_path):
 			os.unlink(oldest)
 
-		with open(cache_path, mode='wb') as f:
-			instance.save(f)
+		try:
+			with open(cache_path, mode='wb') as f:
+				instance.save(f)
+		except BaseException:
+			# XXX 保存に失敗した場合、不完全なキャッシュファイルを残さない
+			if os.path.exists(cache_path):
+				os.unlink(cache_path)
+
+			raise
 
 	def find_oldest(self, cache_path: str) -> list[str]:
 		"""旧キャッシュファイルを検索
